@@ -238,11 +238,56 @@ Proof.
     apply sim_upd; auto. eapply covers_sub; [apply Hc|]. assumption.
 Qed.
 
+(* ------------------------------------------------------------------ run-time callables *)
+Lemma covers_top : forall A v, covers A atop v.
+Proof. intros A v; split; intro; reflexivity. Qed.
+
+Lemma sim_upd_list_top : forall A rets a e vs,
+  sim A a e -> sim A (aset_list a rets (repeat atop (length rets))) (upd_list e rets vs).
+Proof.
+  intros A rets; induction rets as [|x rets IH]; intros a e vs Hs; simpl; [exact Hs|].
+  destruct vs as [|v vs]; simpl.
+  - (* fewer values than result variables: the remaining variables keep their old value, which the
+       (larger) abstract value still covers *)
+    clear IH. revert a Hs. revert x. induction rets as [|y rets IH2]; intros x a Hs; simpl.
+    + intro z. destruct (Nat.eq_dec x z) as [E|E].
+      * subst z. rewrite aget_aset_eq. apply covers_top.
+      * rewrite aget_aset_neq by exact E. apply Hs.
+    + apply IH2. intro z. destruct (Nat.eq_dec x z) as [E|E].
+      * subst z. rewrite aget_aset_eq. apply covers_top.
+      * rewrite aget_aset_neq by exact E. apply Hs.
+  - apply IH. apply sim_upd; [exact Hs|apply covers_top].
+Qed.
+
+Lemma aget_top_env : forall np x,
+  aget (top_env np) x = if Nat.ltb x NRET then abot else if Nat.ltb (x - NRET) np then atop else abot.
+Proof.
+  intros np x. unfold top_env. rewrite nth_repeat_app. destruct (Nat.ltb x NRET); [reflexivity|].
+  destruct (Nat.ltb (x - NRET) np) eqn:E.
+  - apply Nat.ltb_lt in E. revert E. generalize (x - NRET). induction np as [|np IH]; intros j Hj; [lia|].
+    destruct j; simpl; [reflexivity|]. apply IH. lia.
+  - apply Nat.ltb_ge in E. apply nth_overflow. rewrite repeat_length. exact E.
+Qed.
+
+Lemma sim_top_env : forall A np vals, sim A (top_env np) (call_env np vals).
+Proof.
+  intros A np vals x. rewrite aget_top_env. unfold call_env.
+  destruct (Nat.ltb x NRET); [apply covers_empty|].
+  destruct (Nat.ltb (x - NRET) np) eqn:E; [apply covers_top|].
+  apply Nat.ltb_ge in E. rewrite nth_overflow; [apply covers_empty|].
+  rewrite firstn_length. lia.
+Qed.
+
 (* ------------------------------------------------------------------ main simulation lemma *)
 Section Sound.
   Variable p : program.
-  Variable lf : nat.
+  Variable dynok : fname -> bool.
   Variable A : list loc.
+  (* guarantee side of the assume/guarantee argument for run-time callables: every function the
+     analysis lets a CallDyn reach has been accepted with EVERY formal tainted (with some fuels) *)
+  Hypothesis Hdyn : forall g, dynok g = true ->
+    exists fd lf d ac, nth_error p g = Some fd /\
+      aexec (afun p dynok lf d) dynok lf (f_body fd) (top_env (f_nparams fd)) = Some ac.
 
   Definition post (a' : aenv) (st st' : cstate) : Prop :=
     sim A a' (env st') /\ (forall l, In l A -> heap st' l = heap st l) /\ next st <= next st'.
@@ -251,10 +296,10 @@ Section Sound.
   Proof. intros n m H Hle l Hl. specialize (H l Hl). lia. Qed.
 
   Lemma exec_sound : forall s st st', exec p s st st' ->
-    forall d a a', aexec (afun p lf d) lf s a = Some a' ->
+    forall lf d a a', aexec (afun p dynok lf d) dynok lf s a = Some a' ->
     sim A a (env st) -> bounded A (next st) -> post a' st st'.
   Proof.
-    induction 1; intros d a a' Ha Hs Hb; simpl in Ha; unfold post in *.
+    induction 1; intros lf d a a' Ha Hs Hb; simpl in Ha; unfold post in *.
     - (* Skip *) inversion Ha; subst. split; [exact Hs|split; [reflexivity|lia]].
     - (* Bind *) inversion Ha; subst. split; [|split]; simpl.
       + apply sim_upd; [exact Hs|].
@@ -267,45 +312,59 @@ Section Sound.
       intros l Hl. apply H. intro Hin.
       destruct (Hs x) as [Ho _]. rewrite Ho in E; [discriminate|]. exists l; auto.
     - (* Call *)
-      destruct (afun p lf d f (map (aget a) args)) as [ac|] eqn:Ec; [|discriminate].
+      destruct (afun p dynok lf d f (map (aget a) args)) as [ac|] eqn:Ec; [|discriminate].
       inversion Ha; subst a'. clear Ha.
       destruct d as [|d']; simpl in Ec; [discriminate|].
       rewrite H in Ec.
       assert (Hs0 : sim A (repeat abot NRET ++ firstn (f_nparams fd) (map (aget a) args))
                         (call_env (f_nparams fd) (map (env st) args))).
       { apply sim_call_env. apply Forall2_map_sim. exact Hs. }
-      destruct (IHexec d' _ _ Ec Hs0 Hb) as [Hsc [Hh Hn]]. simpl in *.
+      destruct (IHexec _ d' _ _ Ec Hs0 Hb) as [Hsc [Hh Hn]]. simpl in *.
       split; [|split]; simpl.
       + eapply sim_upd_list; eauto. rewrite seq_length. reflexivity.
       + exact Hh.
       + exact Hn.
+    - (* CallDyn, koala callee *)
+      destruct (forallb dynok gs) eqn:Eg; [|discriminate]. inversion Ha; subst a'. clear Ha.
+      rewrite forallb_forall in Eg. specialize (Eg _ H).
+      destruct (Hdyn _ Eg) as [fd' [lf' [d' [ac [Hf' Hac]]]]]. rewrite H0 in Hf'. inversion Hf'; subst fd'.
+      assert (Hs0 : sim A (top_env (f_nparams fd)) (call_env (f_nparams fd) argvals))
+        by apply sim_top_env.
+      destruct (IHexec lf' d' _ _ Hac Hs0 Hb) as [Hsc [Hh Hn]]. simpl in *.
+      split; [|split]; simpl; auto. apply sim_upd_list_top. exact Hs.
+    - (* CallDyn, foreign effect-free callee *)
+      destruct (forallb dynok gs) eqn:Eg; [|discriminate]. inversion Ha; subst a'. clear Ha.
+      split; [|split]; simpl.
+      + apply sim_upd_list_top. exact Hs.
+      + intros l Hl. apply H. specialize (Hb _ Hl). lia.
+      + lia.
     - (* Seq *)
-      destruct (aexec (afun p lf d) lf s1 a) as [a1|] eqn:E1; [|discriminate].
-      destruct (aexec (afun p lf d) lf s2 a1) as [a2|] eqn:E2; [|discriminate].
+      destruct (aexec (afun p dynok lf d) dynok lf s1 a) as [a1|] eqn:E1; [|discriminate].
+      destruct (aexec (afun p dynok lf d) dynok lf s2 a1) as [a2|] eqn:E2; [|discriminate].
       inversion Ha; subst a'. clear Ha.
-      destruct (IHexec1 _ _ _ E1 Hs Hb) as [S1 [H1 N1]].
-      destruct (IHexec2 _ _ _ E2 S1 (bounded_le _ _ Hb N1)) as [S2 [H2 N2]].
+      destruct (IHexec1 _ _ _ _ E1 Hs Hb) as [S1 [H1 N1]].
+      destruct (IHexec2 _ _ _ _ E2 S1 (bounded_le _ _ Hb N1)) as [S2 [H2 N2]].
       split; [|split].
       + apply sim_join_r. exact S2.
       + intros l Hl. rewrite H2 by assumption. apply H1. assumption.
       + lia.
     - (* SeqStop *)
-      destruct (aexec (afun p lf d) lf s1 a) as [a1|] eqn:E1; [|discriminate].
-      destruct (aexec (afun p lf d) lf s2 a1) as [a2|] eqn:E2; [|discriminate].
+      destruct (aexec (afun p dynok lf d) dynok lf s1 a) as [a1|] eqn:E1; [|discriminate].
+      destruct (aexec (afun p dynok lf d) dynok lf s2 a1) as [a2|] eqn:E2; [|discriminate].
       inversion Ha; subst a'. clear Ha.
-      destruct (IHexec _ _ _ E1 Hs Hb) as [S1 [H1 N1]].
+      destruct (IHexec _ _ _ _ E1 Hs Hb) as [S1 [H1 N1]].
       split; [|split]; auto. apply sim_join_l. exact S1.
     - (* IfL *)
-      destruct (aexec (afun p lf d) lf s1 a) as [a1|] eqn:E1; [|discriminate].
-      destruct (aexec (afun p lf d) lf s2 a) as [a2|] eqn:E2; [|discriminate].
+      destruct (aexec (afun p dynok lf d) dynok lf s1 a) as [a1|] eqn:E1; [|discriminate].
+      destruct (aexec (afun p dynok lf d) dynok lf s2 a) as [a2|] eqn:E2; [|discriminate].
       inversion Ha; subst a'. clear Ha.
-      destruct (IHexec _ _ _ E1 Hs Hb) as [S1 [H1 N1]].
+      destruct (IHexec _ _ _ _ E1 Hs Hb) as [S1 [H1 N1]].
       split; [|split]; auto. apply sim_join_l. exact S1.
     - (* IfR *)
-      destruct (aexec (afun p lf d) lf s1 a) as [a1|] eqn:E1; [|discriminate].
-      destruct (aexec (afun p lf d) lf s2 a) as [a2|] eqn:E2; [|discriminate].
+      destruct (aexec (afun p dynok lf d) dynok lf s1 a) as [a1|] eqn:E1; [|discriminate].
+      destruct (aexec (afun p dynok lf d) dynok lf s2 a) as [a2|] eqn:E2; [|discriminate].
       inversion Ha; subst a'. clear Ha.
-      destruct (IHexec _ _ _ E2 Hs Hb) as [S1 [H1 N1]].
+      destruct (IHexec _ _ _ _ E2 Hs Hb) as [S1 [H1 N1]].
       split; [|split]; auto. apply sim_join_r. exact S1.
     - (* LoopEnd *)
       destruct (loop_fix_inv _ _ _ _ Ha) as [Hle _].
@@ -313,16 +372,32 @@ Section Sound.
     - (* LoopStep *)
       destruct (loop_fix_inv _ _ _ _ Ha) as [Hle [a'' [Hbody Hle2]]].
       assert (Hs' : sim A a' (env st)) by (eapply sim_vle; eauto).
-      destruct (IHexec1 _ _ _ Hbody Hs' Hb) as [S1 [H1 N1]].
+      destruct (IHexec1 _ _ _ _ Hbody Hs' Hb) as [S1 [H1 N1]].
       assert (S1' : sim A a' (env st1)) by (eapply sim_le; eauto).
-      assert (Hloop : aexec (afun p lf d) lf (Loop s) a' = Some a').
+      assert (Hloop : aexec (afun p dynok lf d) dynok lf (Loop s) a' = Some a').
       { simpl. eapply loop_fix_stable; eauto. }
-      destruct (IHexec2 _ _ _ Hloop S1' (bounded_le _ _ Hb N1)) as [S2 [H2 N2]].
+      destruct (IHexec2 _ _ _ _ Hloop S1' (bounded_le _ _ Hb N1)) as [S2 [H2 N2]].
       split; [|split]; auto.
       + intros l Hl. rewrite H2 by assumption. apply H1. assumption.
       + lia.
   Qed.
 End Sound.
+
+(* the guarantee side holds for the candidate set computed by [dyn_ok] (or dyn_ok is constantly false) *)
+Lemma dyn_ok_spec : forall p g, dyn_ok p g = true ->
+  exists fd lf d ac, nth_error p g = Some fd /\
+    aexec (afun p (dyn_ok p) lf d) (dyn_ok p) lf (f_body fd) (top_env (f_nparams fd)) = Some ac.
+Proof.
+  intros p g. unfold dyn_ok.
+  destruct (forallb (target_verified p (prog_targets p)) (prog_targets p)) eqn:V; [|discriminate].
+  intro H. unfold mem_target in H at 1. apply existsb_exists in H. destruct H as [x [Hx Hg]].
+  apply Nat.eqb_eq in Hg. subst x.
+  rewrite forallb_forall in V. specialize (V _ Hx). unfold target_verified in V.
+  destruct (nth_error p g) as [fd|]; [|discriminate].
+  destruct (aexec (afun p (mem_target (prog_targets p)) LOOP_FUEL (S (length p))) (mem_target (prog_targets p))
+                  LOOP_FUEL (f_body fd) (top_env (f_nparams fd))) as [ac|] eqn:E; [|discriminate].
+  exists fd, LOOP_FUEL, (S (length p)), ac. split; [reflexivity|exact E].
+Qed.
 
 (* ------------------------------------------------------------------ top-level statements *)
 (* locations owned by / reachable from the tainted actual arguments at entry *)
@@ -354,12 +429,12 @@ Theorem analysis_sound_mask : forall p f mask fd argvals st0 st',
 Proof.
   intros p f mask fd argvals st0 st' Hna Hf Henv Hsep Hbd Hex.
   unfold no_arg_write_mask in Hna.
-  destruct (afun p LOOP_FUEL (S (length p)) f (mask_avals mask)) as [a'|] eqn:E; [|discriminate].
+  destruct (afun p (dyn_ok p) LOOP_FUEL (S (length p)) f (mask_avals mask)) as [a'|] eqn:E; [|discriminate].
   simpl in E. rewrite Hf in E.
   set (A := args_locs mask argvals) in *.
   assert (Hs : sim A (repeat abot NRET ++ firstn (f_nparams fd) (mask_avals mask)) (env st0)).
   { intro x. rewrite Henv. apply sim_call_env. apply covers_mask. exact Hsep. }
-  destruct (exec_sound p LOOP_FUEL A _ _ _ Hex _ _ _ E Hs Hbd) as [_ [Hh _]].
+  destruct (exec_sound p (dyn_ok p) A (dyn_ok_spec p) _ _ _ Hex _ _ _ _ E Hs Hbd) as [_ [Hh _]].
   exact Hh.
 Qed.
 
@@ -411,7 +486,7 @@ Qed.
    contents it would have read had the earlier calls never happened. *)
 Theorem client_sound : forall p s n st st' a',
   (forall x, n <= x -> env st x = empty_val) ->
-  aexec (afun p LOOP_FUEL (S (length p))) LOOP_FUEL s (repeat (true, true) n) = Some a' ->
+  aexec (afun p (dyn_ok p) LOOP_FUEL (S (length p))) (dyn_ok p) LOOP_FUEL s (repeat (true, true) n) = Some a' ->
   exec p s st st' ->
   forall l, l < next st -> heap st' l = heap st l.
 Proof.
@@ -423,6 +498,6 @@ Proof.
     - rewrite Hemp by exact Hx. apply covers_empty. }
   assert (Hb : bounded A (next st)).
   { intros l' Hl'. apply in_seq in Hl'. lia. }
-  destruct (exec_sound p LOOP_FUEL A _ _ _ Hex _ _ _ Ha Hs Hb) as [_ [Hh _]].
+  destruct (exec_sound p (dyn_ok p) A (dyn_ok_spec p) _ _ _ Hex _ _ _ _ Ha Hs Hb) as [_ [Hh _]].
   apply Hh. apply in_seq. lia.
 Qed.
